@@ -127,8 +127,8 @@ class C15(Property):
             seed = rng.getrandbits(48)
             k = rng.choice([1, -1, 5, 1000, -1000, 123456, -999999, 1000000, -1000000, rng.randint(-10**6, 10**6)])
             import random as _r
-            a = gen_map(_r.Random(seed), hostile=0, chronological=True, tshift=0, integer_times=True)
-            b = gen_map(_r.Random(seed), hostile=0, chronological=True, tshift=k, integer_times=True)
+            a = gen_map(_r.Random(seed), hostile=0, chronological=True, tshift=0, integer_times=True, alien=False)
+            b = gen_map(_r.Random(seed), hostile=0, chronological=True, tshift=k, integer_times=True, alien=False)
             cases.append(Case(f"decshift {k} {hexs(chr(10).join(a).encode())} {hexs(chr(10).join(b).encode())}", tags=("shift",)))
         return cases
 
